@@ -211,7 +211,8 @@ PROGFUZZ = {
         assumptions=["rustc compiles the generated crate faithfully", "the reference evaluator is correct", "constant renaming only for the uninterpreted fragment, as the property states"],
     ),
     "C07": dict(
-        quick=dict(programs=80, cases=20), thorough=dict(programs=700, cases=60),
+        # (thorough: 400 programs with three or four members each; 700 no longer link into one runner binary)
+        quick=dict(programs=80, cases=20), thorough=dict(programs=400, cases=100),
         level="exploration",
         rule=("Sugared programs: positive base plus 2-4 rules that combine disjunctions (2-3 disjuncts binding a common variable, with "
               "conditions, negations and nested disjunctions inside), ?pattern arguments, repeated variables, expression arguments over "
